@@ -1389,6 +1389,9 @@ func (t *Topic) subscriptionReply(asChan bool, msg *ClientComMessage) error {
 		if acs, err := types.ParseAcs([]byte(modeChanged.Mode)); err == nil {
 			hasJoined = acs.IsJoiner()
 		}
+	} else if pud, ok := t.perUser[asUid]; ok && !(pud.modeGiven & pud.modeWant).IsJoiner() {
+		// Nothing has changed: a user who is banned or has banned the topic stays detached.
+		hasJoined = false
 	}
 
 	if hasJoined {
